@@ -181,11 +181,9 @@ func (dm *DMap) syncPutOnCluster(e *env, nt storage.Entry) error {
 	for _, owner := range owners {
 		rc := dm.s.client.Get(owner.String())
 		cmd := protocol.NewPutEntry(dm.name, e.key, encodedEntry).Command(dm.s.ctx)
-		err := rc.Process(dm.s.ctx, cmd)
-		if err != nil {
-			return protocol.ConvertError(err)
-		}
-		err = protocol.ConvertError(cmd.Err())
+		// A backup owner that cannot be reached or that rejects the entry is a missing copy:
+		// the write quorum decides whether the Put is acknowledged.
+		err := protocol.ConvertError(rc.Process(dm.s.ctx, cmd))
 		if err != nil {
 			if dm.s.log.V(3).Ok() {
 				dm.s.log.V(3).Printf("[ERROR] Failed to call put command on %s for DMap: %s: %v", owner, e.dmap, err)
